@@ -24,6 +24,34 @@ import mido.midifiles.midifiles as mfmod  # noqa: E402
 from mido import MidiFile, MidiTrack, MetaMessage, Message  # noqa: E402
 from mido.midifiles.meta import UnknownMetaMessage  # noqa: E402
 from mido.frozen import freeze_message, thaw_message  # noqa: E402
+from mido.midifiles import meta as metamod  # noqa: E402
+
+
+class MetaSpec_verif_custom(metamod.MetaSpec):
+    """A meta message type the application registers itself through the documented add_meta_spec()."""
+    type_byte = 0x62
+    attributes = ['param']
+    defaults = [1]
+
+    def decode(self, message, data):
+        message.param = data[0]
+
+    def encode(self, message):
+        return [message.param]
+
+    def check(self, name, value):
+        if not isinstance(value, int) or not 0 <= value <= 255:
+            raise ValueError('param must be in range 0..255')
+
+
+def register_custom_meta():
+    metamod.add_meta_spec(MetaSpec_verif_custom)
+
+
+def unregister_custom_meta():
+    for table in (metamod._META_SPECS, metamod._META_SPEC_BY_TYPE):
+        for key in (0x62, 'verif_custom'):
+            table.pop(key, None)
 
 VLQ_EDGES = (0, 0, 0, 1, 127, 128, 16383, 16384, 2097151, 2097152, 268435455)
 SMALL_DELTAS = (0, 0, 0, 1, 10, 127, 128, 480)
@@ -127,6 +155,8 @@ def build(ev):
         return UnknownMetaMessage(ev[1], tuple(ev[2]), time=ev[3])
     if k == 'eot':
         return MetaMessage('end_of_track', time=ev[1])
+    if k == 'cmeta':
+        return MetaMessage('verif_custom', param=ev[1], time=ev[2])
     if k == 'rt':
         return Message(ev[1], time=ev[2])
     if k == 'badtime':
@@ -229,6 +259,16 @@ class FileStore(BaseEngine):
                 'prelude': [pick(rng, ('utf-8', 'utf-16', 'cp1252', 'latin1')) for _ in range(rng.randint(1, 2))]
                 if rng.random() < 0.2 else []}
         if cfg == 'roundtrip':
+            if rng.random() < 0.12 and tracks:
+                # the application registered a meta type of its own (add_meta_spec) and uses it
+                plan['custom_meta'] = True
+                for _ in range(rng.randint(1, 3)):
+                    tr = tracks[rng.randrange(len(tracks))]
+                    tr.insert(rng.randint(0, len(tr)), ['cmeta', _edge(rng, 0, 255), pick(rng, SMALL_DELTAS)])
+            # the file does not start at offset 0 of its stream (it follows a container header or another file)
+            plan['offset'] = pick(rng, (0, 0, 0, 0, 8, 12, 300))
+            # the sink reports its size: len() == 0, i.e. falsy, while nothing has been written
+            plan['sized_sink'] = rng.random() < 0.15
             plan['read_cap'] = pick(rng, (0, 0, 16, 50, 100, 4096))
             plan['frozen'] = cfg == 'roundtrip' and rng.random() < 0.15
             plan['debug'] = rng.random() < 0.04
@@ -348,6 +388,7 @@ class FileStore(BaseEngine):
         cov = set()
         viol = None
         final = None
+        self._stats = stats
         log.ev('plan', plan['cfg'], plan['type'], plan['tpb'], repr(plan['tracks']), repr(plan.get('mut')))
         try:
             try:
@@ -367,6 +408,7 @@ class FileStore(BaseEngine):
                 log.ev('VIOLATION', v.sig)
         finally:
             self.abort_cleanup()
+            unregister_custom_meta()
         nontrivial = stats.pop('_nontrivial', 0) > 0
         out = {'viol': viol, 'digest': log.digest(), 'nontrivial': nontrivial, 'stats': stats, 'cov': cov,
                'events': log.events, 'sim_s': 0.0}
@@ -394,6 +436,9 @@ class FileStore(BaseEngine):
         return cs
 
     def _mk(self, plan):
+        if plan.get('custom_meta'):
+            register_custom_meta()
+            self._stats['fault:application_defined_meta_type'] += 1
         mf = MidiFile(type=plan['type'] if plan['type'] in (0, 1, 2) else 1, ticks_per_beat=plan['tpb'],
                       charset=self._charset(plan))
         for tr in plan['tracks']:
@@ -403,7 +448,13 @@ class FileStore(BaseEngine):
                 mf.tracks.append(MidiTrack(build(e) for e in tr))
         return mf
 
-    def _save(self, mf, via, disk, name='f.mid'):
+    def _save(self, mf, via, disk, name='f.mid', offset=0, sized=False):
+        if via != 'filename' and (offset or sized):
+            h = disk.handle(name, 'wb', sized=sized)
+            if offset:
+                h.write(bytes((0x52 + i) & 0xFF for i in range(offset)))
+            mf.save(file=h)
+            return bytes(disk.files[name][offset:])
         if via == 'filename':
             mfmod.__dict__['open'] = disk.open
             try:
@@ -415,8 +466,11 @@ class FileStore(BaseEngine):
             mf.save(file=h)
         return bytes(disk.files[name])
 
-    def _load(self, image, via, disk, name='g.mid', charset='latin1', read_cap=0, debug=False, stats=None):
-        disk.files[name] = bytearray(image)
+    def _load(self, image, via, disk, name='g.mid', charset='latin1', read_cap=0, debug=False, stats=None,
+              offset=0):
+        if via == 'filename':
+            offset = 0
+        disk.files[name] = bytearray(bytes((0x4D + 7 * i) & 0xFF for i in range(offset)) + bytes(image))
         fault = {'read_cap': read_cap} if read_cap else None
         kw = {'debug': True} if debug else {}
         old_out = sys.stdout
@@ -430,7 +484,10 @@ class FileStore(BaseEngine):
                     return MidiFile(filename=name, charset=charset, **kw)
                 finally:
                     mfmod.__dict__.pop('open', None)
-            return MidiFile(file=disk.handle(name, 'rb', fault), charset=charset, **kw)
+            h = disk.handle(name, 'rb', fault)
+            if offset:
+                h.seek(offset)          # positioned at the start of the MIDI data
+            return MidiFile(file=h, charset=charset, **kw)
         finally:
             sys.stdout = old_out
             if stats is not None:
@@ -549,7 +606,12 @@ class FileStore(BaseEngine):
             stats['fault:nested_call'] += 1
         try:
             for _ in range(max(1, plan.get('saves', 1))):
-                image = self._save(mf, plan['via'], disk)
+                image = self._save(mf, plan['via'], disk, offset=plan.get('offset', 0), sized=plan.get('sized_sink', False))
+            if plan['via'] != 'filename':
+                if plan.get('offset'):
+                    stats['fault:file_not_at_offset_0'] += 1
+                if plan.get('sized_sink'):
+                    stats['fault:sink_with_len'] += 1
             if plan.get('saves', 1) > 1:
                 stats['probe:same_object_saved_again'] += 1
         except Exception as e:
@@ -576,7 +638,7 @@ class FileStore(BaseEngine):
             stats['fault:other_file_in_between'] += 1
         try:
             back = self._load(image, plan['via'], disk, charset=self._charset(plan), read_cap=plan.get('read_cap', 0),
-                              debug=plan.get('debug', False), stats=stats)
+                              debug=plan.get('debug', False), stats=stats, offset=plan.get('offset', 0))
         except Exception as e:
             raise Violation(f'roundtrip:load-raised:{type(e).__name__}',
                             f'loading the image just saved raised {type(e).__name__}: {e} '
